@@ -28,6 +28,9 @@ func init() {
 			if isCap(c) {
 				return len(c.Lines) > 3
 			}
+			if isLarge(c) {
+				return len(c.Lines) > 5
+			}
 			if isSync(c) {
 				return syncNonTrivial(c, out)
 			}
@@ -42,7 +45,7 @@ func init() {
 			return n > 0 && len(c.Lines) > 4
 		},
 		Rule: "ring: op sequences (push/pop/peek/len/cap/isempty/isfull/recap/pushx) on Ring[int] of requested capacity -1..6 (1% on the never-initialised zero value, tie only), values distinct counters; non-trivial = at least one successful Recap or a PushWithExpand in a sequence of ≥ 4 ops. " +
-			"sync: op sequences (push/pop/len/cap/isempty/isfull/dump, PushWait/PopWait with maxWait 0, 1..3 ms and -1) on SyncRing[int] of requested capacity 1..9 (plus <= 0 and > 2^31), usually after warping the fresh ring's counters to k around 2^32-{0..3cap}, 2^32+j, 2^33±j (reflect+unsafe, proved equal to k honest push/pop pairs); non-trivial = at least two successful pushes. synccap: 3..9 independent NewSync[struct{}](n).Cap() calls, n among 2^k, 2^k±1, 2^k±2, 3·2^(k-1) (k <= 22), log-uniform random, <= 0, > 2^31. Distinct by hash of the op list",
+			"sync: op sequences (push/pop/len/cap/isempty/isfull/dump, PushWait/PopWait with maxWait 0, 1..3 ms and -1) on SyncRing[int] of requested capacity 1..9 (plus <= 0 and > 2^31), usually after warping the fresh ring's counters to k around 2^32-{0..3cap}, 2^32+j, 2^33±j (reflect+unsafe, proved equal to k honest push/pop pairs); non-trivial = at least two successful pushes. ringL (large stream): Ring[int] of capacity 16..5000 (thresholds 16/17 … 1024/1025, 4096/4097; to 70000 in thorough) driven by bulk ops fill/drain/xfill with the head rotated into every quarter, PushWithExpand repeatedly, Recap up and down. synccap: 3..9 independent NewSync[struct{}](n).Cap() calls, n among 2^k, 2^k±1, 2^k±2, 3·2^(k-1) (k <= 22), log-uniform random, <= 0, > 2^31. Distinct by hash of the op list",
 		Classify: classifyBoth,
 		Parallel: true,
 		Assumptions: []string{
@@ -83,6 +86,14 @@ func gen(r *core.Rand, tier string) core.Case {
 	n := r.Range(1, 40)
 	next := 1
 	for i := 0; i < n; i++ {
+		if r.Chance(2) { // history: Init again on a used ring
+			c := r.Range(1, 6)
+			if r.Chance(10) {
+				c = r.Range(-1, 0)
+			}
+			lines = append(lines, fmt.Sprintf("init %d", c))
+			continue
+		}
 		switch r.Pick(30, 22, 5, 6, 3, 3, 3, 14, 8) {
 		case 0:
 			lines = append(lines, fmt.Sprintf("push %d", next))
@@ -126,40 +137,49 @@ func impl(c core.Case) []string {
 			r = ringz.New[int](n)
 			return "ok"
 		},
-		func(t []string) string {
-			arg := 0
-			if len(t) == 2 {
-				v, err := strconv.Atoi(t[1])
-				if err != nil {
-					return "bad-op"
-				}
-				arg = v
-			}
-			switch t[0] {
-			case "push":
-				return strconv.FormatBool(r.Push(arg))
-			case "pushx":
-				r.PushWithExpand(arg)
-				return "ok"
-			case "recap":
-				return strconv.FormatBool(r.Recap(arg))
-			case "pop":
-				v, ok := r.Pop()
-				return fmt.Sprintf("%d %v", v, ok)
-			case "peek":
-				v, ok := r.Peek()
-				return fmt.Sprintf("%d %v", v, ok)
-			case "len":
-				return strconv.Itoa(r.Len())
-			case "cap":
-				return strconv.Itoa(r.Cap())
-			case "isempty":
-				return strconv.FormatBool(r.IsEmpty())
-			case "isfull":
-				return strconv.FormatBool(r.IsFull())
-			}
+		func(t []string) string { return ringOp(&r, t) })
+}
+
+// ringOp: one single operation of the line protocol on a Ring[int].
+func ringOp(r *ringz.Ring[int], t []string) string {
+	arg := 0
+	if len(t) == 2 {
+		v, err := strconv.Atoi(t[1])
+		if err != nil {
 			return "bad-op"
-		})
+		}
+		arg = v
+	}
+	switch t[0] {
+	case "init": // Init on the existing ring: "initializes or clears the ring"
+		if len(t) != 2 {
+			return "bad-op"
+		}
+		r.Init(arg)
+		return "ok"
+	case "push":
+		return strconv.FormatBool(r.Push(arg))
+	case "pushx":
+		r.PushWithExpand(arg)
+		return "ok"
+	case "recap":
+		return strconv.FormatBool(r.Recap(arg))
+	case "pop":
+		v, ok := r.Pop()
+		return fmt.Sprintf("%d %v", v, ok)
+	case "peek":
+		v, ok := r.Peek()
+		return fmt.Sprintf("%d %v", v, ok)
+	case "len":
+		return strconv.Itoa(r.Len())
+	case "cap":
+		return strconv.Itoa(r.Cap())
+	case "isempty":
+		return strconv.FormatBool(r.IsEmpty())
+	case "isfull":
+		return strconv.FormatBool(r.IsFull())
+	}
+	return "bad-op"
 }
 
 // check is the property's own predicate, evaluated on the implementation's outputs
@@ -189,6 +209,14 @@ func check(c core.Case, out []string) *core.Failure {
 		var want string
 		before, capBefore := append([]int{}, q...), capacity
 		switch t[0] {
+		case "init":
+			if arg <= 0 {
+				if out[i] != "panic" {
+					return fail(i, "panic")
+				}
+				return nil
+			}
+			q, capacity, want = nil, arg, "ok"
 		case "push":
 			if len(q) < capacity {
 				q = append(q, arg)
@@ -244,6 +272,8 @@ func classify(c core.Case, out []string) []string {
 	for i, l := range c.Lines[1:] {
 		t := core.Toks(l)
 		switch {
+		case t[0] == "init":
+			ls = append(ls, "ring-reinit")
 		case t[0] == "recap" && out[i+1] == "true":
 			ls = append(ls, "recap-ok")
 		case t[0] == "recap":
